@@ -124,7 +124,9 @@ def check_all(ck, prop, n, faults_per_program=0, sizes=(4, 6, 8), tblgen_sample=
 
 def report(ck, prop, d, p):
     files = getattr(p, "files", {})
-    what = KNOWN_TEXT.get(d["sig"]) or ("%s: %s at %s" % (d["clause"], d["construct"], json.dumps(d["detail"], default=str)[:160]))
+    what = KNOWN_TEXT.get(d["sig"]) or (getattr(oracle, "CAUSES", {}).get(d["construct"]) and "%s [%s] %s" % (
+        oracle.CAUSES[d["construct"]], d["clause"], json.dumps(d["detail"], default=str)[:120])) or \
+        ("%s: %s at %s" % (d["clause"], d["construct"], json.dumps(d["detail"], default=str)[:160]))
     ck.fail(d["sig"].split("|"), what, {"files": {k: v[:3000] for k, v in files.items()}, "root": getattr(p, "root", None),
                                         "detail": json.loads(json.dumps(d["detail"], default=str))},
             json.dumps(d["detail"], default=str)[:300], "the answer the property demands (see detail.want / the property text)")
